@@ -42,7 +42,7 @@ def apply(fc):
     fc.contract('message_type_bits', requires=['cur_ok(data)'], ensures=['message_type_bits_post(data, r)'], tags=['C09', 'C19'])
     fc.body_prefix('message_type_bits', 'proof { at_self(data); }')
     # format! in the error arm; only called from parse_6bit_ascii: K, complete over all 256 inputs
-    fc.contract('sixbit_to_ascii', external_body=True, tags=['C13'])
+    fc.contract('sixbit_to_ascii', ensures=['data <= 31 ==> r == Ok::<u8, crate::errors::Error>((data + 64) as u8)', '32 <= data <= 63 ==> r == Ok::<u8, crate::errors::Error>(data)', 'data >= 64 ==> r is Err'], tags=['C13'])
     fc.contract('u8_to_bool', requires=['data <= 1'], ensures=['r == (data == 1)'], tags=['C04'])
     # leading_zeros / shift tricks: K, complete over all widths 1..=31, offsets 0..7, contents
     fc.contract('signed_i32', requires=['cur_ok(input)', '1 <= len <= 31'], ensures=['signed_post(input, len as int, r)'], external_body=True, tags=['C10'])
